@@ -119,6 +119,7 @@ func (s *storage) findOrCreateTable(oldTable *table, add []ID, remove []ID, rela
 	if archID, ok := node.GetArchetype(); ok {
 		arch = &s.archetypes[archID]
 	} else {
+		s.checkRelationsOf(&node.mask, relations)
 		arch = s.createArchetype(node)
 	}
 
@@ -170,6 +171,7 @@ func (s *storage) findOrCreateTableAdd(oldTable *table, add []ID, relations []re
 	if archID, ok := node.GetArchetype(); ok {
 		arch = &s.archetypes[archID]
 	} else {
+		s.checkRelationsOf(&node.mask, relations)
 		arch = s.createArchetype(node)
 	}
 
